@@ -158,6 +158,7 @@ func checkC10(w *World, r *Report) {
 	checkOwnBlocksRegistered(w, r)
 	checkExtendsSearchedEverywhere(w, r)
 	checkNestedConstructsRestoreState(w, r)
+	checkParsedNodesNotFiltered(w, r)
 	checkResolvesThroughLoad(w, r, "R10.5", []string{"ExtendsNode"}, "a parent remembered from an earlier render is used although the parent name is an expression (or the engine would reload it): the child is laid out in the wrong parent")
 
 	// ---- R10.2
@@ -1100,4 +1101,126 @@ func checkNestedConstructsRestoreState(w *World, r *Report) {
 		}
 	}
 	r.Counts["constant brackets around re-entrant work"] = n
+}
+
+// checkParsedNodesNotFiltered — R10.12: every node the parser produced for a body is in the tree.
+// In parser-reachable code no list of nodes is copied element by element with the copy of an
+// element depending on what that element is (its type, its fields, a predicate over it): that is
+// a filter, and what it filters out — "a block that only calls parent()", "an empty text" — is a
+// definition that a template further down the extends chain, or the block registry, still counts
+// on.  Copies that keep every element (flattening, re-slicing) are not affected.
+func checkParsedNodesNotFiltered(w *World, r *Report) {
+	reach := w.parseReachable()
+	nodeT := w.lookup("Node").Type()
+	n := 0
+	for _, fn := range w.pkgFuncs() {
+		if !reach[fn] {
+			continue
+		}
+		instrsOf(fn, func(in ssa.Instruction) {
+			c, ok := in.(*ssa.Call)
+			if !ok {
+				return
+			}
+			b, ok := c.Call.Value.(*ssa.Builtin)
+			if !ok || b.Name() != "append" || len(c.Call.Args) != 2 {
+				return
+			}
+			sl, ok := c.Call.Args[0].Type().Underlying().(*types.Slice)
+			if !ok || !types.Identical(sl.Elem(), nodeT) {
+				return
+			}
+			// the appended element: one element taken out of another []Node
+			var elem ssa.Value
+			for _, v := range originChain(c.Call.Args[1]) {
+				if st := elementStoredInto(v); st != nil {
+					elem = st
+				}
+			}
+			if elem == nil {
+				return
+			}
+			src, ok := elementOfNodeList(elem, nodeT)
+			if !ok {
+				return
+			}
+			n++
+			construct := "element of " + describe(src) + " copied into another node list"
+			bad := ""
+			for _, cond := range iterationConds(in, unspill(elem)) {
+				if valueDependsOn(cond, elem, 8) {
+					bad = w.posOf(cond.Pos())
+				}
+			}
+			if bad == "" {
+				r.ok("R10.12", ssaName(fn), construct, w.posOf(in.Pos()), "the copy does not depend on what the element is", true)
+			} else {
+				r.bad("R10.12", ssaName(fn), construct, w.posOf(in.Pos()), "whether the node is kept depends on the test at "+bad+" over the node itself: parsed nodes (block definitions among them) are dropped from the tree, and the extends chain below this template no longer finds what the template wrote")
+			}
+		})
+	}
+	r.Counts["element-wise copies of node lists in the parser"] = n
+}
+
+// elementStoredInto: for the variadic slice of append(xs, v) — new [1]Node with v stored at 0 —
+// the stored v; nil otherwise.
+func elementStoredInto(v ssa.Value) ssa.Value {
+	sl, ok := v.(*ssa.Slice)
+	if !ok {
+		return nil
+	}
+	al, ok := sl.X.(*ssa.Alloc)
+	if !ok || al.Referrers() == nil {
+		return nil
+	}
+	for _, ref := range *al.Referrers() {
+		ia, ok := ref.(*ssa.IndexAddr)
+		if !ok || ia.Referrers() == nil {
+			continue
+		}
+		for _, r2 := range *ia.Referrers() {
+			if st, ok := r2.(*ssa.Store); ok && st.Addr == ssa.Value(ia) {
+				return st.Val
+			}
+		}
+	}
+	return nil
+}
+
+// elementOfNodeList: v is xs[i] for a []Node xs (a range variable or an indexed read)
+func elementOfNodeList(v ssa.Value, nodeT types.Type) (ssa.Value, bool) {
+	for _, o := range originChain(v) {
+		if u, ok := o.(*ssa.UnOp); ok && u.Op == token.MUL {
+			if ia, ok := u.X.(*ssa.IndexAddr); ok {
+				if sl, ok := ia.X.Type().Underlying().(*types.Slice); ok && types.Identical(sl.Elem(), nodeT) {
+					return ia.X, true
+				}
+			}
+		}
+	}
+	return nil, false
+}
+
+// valueDependsOn: on is among the transitive operands of v (through calls, assertions, loads of fields)
+func valueDependsOn(v, on ssa.Value, depth int) bool {
+	seen := map[ssa.Value]bool{}
+	var walk func(v ssa.Value, d int) bool
+	walk = func(v ssa.Value, d int) bool {
+		if v == nil || seen[v] || d > depth {
+			return false
+		}
+		seen[v] = true
+		if v == on {
+			return true
+		}
+		if in, ok := v.(ssa.Instruction); ok {
+			for _, op := range in.Operands(nil) {
+				if *op != nil && walk(*op, d+1) {
+					return true
+				}
+			}
+		}
+		return false
+	}
+	return walk(v, 0)
 }
